@@ -458,6 +458,10 @@ class Engine:
             if z3.is_int(v) or z3.is_real(v):
                 return v != 0
             if z3.is_string(v):
+                from . import strmodel as _sm
+
+                if _sm.ENABLED and _sm.lower_arg(v) is not None:
+                    return _sm.truth_of_lower(_sm.lower_arg(v))
                 return z3.Length(v) > 0
         if isinstance(v, OptV):
             return speclib_and(self.b_not(v.is_none), self.truth(ctx, v.val))
@@ -509,6 +513,12 @@ class Engine:
                 return False
             raise EngineLimit("== None of %r" % (other,))
         if isinstance(a, z3.ExprRef) or isinstance(b, z3.ExprRef):
+            from . import strmodel as _sm
+
+            if _sm.ENABLED:
+                for lit, term in ((a, b), (b, a)):
+                    if isinstance(lit, str) and isinstance(term, z3.ExprRef) and _sm.lower_arg(term) is not None:
+                        return _sm.eq_literal(self, ctx, lit, term)
             ta, tb = self.coerce_pair(a, b)
             if ta is None:
                 return False
